@@ -160,6 +160,10 @@ def defect_positions():
         ("meta.imports path", "invalid import", setp(["meta", "imports", "okal"], "x y")),
         ("meta.functions name", "invalid function", setp(["meta", "functions", "1f"], "fx.Fn1")),
         ("meta.functions gofn", "invalid go function", setp(["meta", "functions", "g"], "fx.")),
+        # re-defining a built-in function name is allowed, with a valid Go function; an invalid one is a violation like any other
+        ("meta.functions builtin todo", "invalid go function", setp(["meta", "functions", "todo"], 'errors.New("todo")')),
+        ("meta.functions builtin env", "invalid go function", setp(["meta", "functions", "env"], "os.Get env")),
+        ("meta.functions builtin envInt", "invalid go function", setp(["meta", "functions", "envInt"], "1x")),
         ("param name", '"bad name"', setp(["parameters", "bad name"], 1)),
         ("param value", '"lst"', setp(["parameters", "lst"], [1, 2])),
         ("service name", '"bad svc"', setp(["services", "bad svc"], {"constructor": "fx.NewA"})),
